@@ -262,3 +262,35 @@ pub fn contractclient(attr: TokenStream, item: TokenStream) -> TokenStream {
     }
     .into()
 }
+
+/// `bytesn!(env, 0x..)` / `bytesn!(env, [..])` and `bytes!(..)`: the literal becomes a byte array (as the real macros do).
+fn bytes_lit(input: TokenStream, n: bool) -> TokenStream {
+    use syn::parse::Parser;
+    let args = syn::punctuated::Punctuated::<syn::Expr, syn::Token![,]>::parse_terminated
+        .parse(input)
+        .expect("bytes!/bytesn!: (env, literal)");
+    let env = &args[0];
+    let arr = match &args[1] {
+        syn::Expr::Lit(syn::ExprLit { lit: syn::Lit::Int(i), .. }) => {
+            let t = i.to_string().replace('_', "");
+            let h = t.strip_prefix("0x").expect("bytes!/bytesn!: hex literal expected");
+            let h = if h.len() % 2 == 1 { format!("0{}", h) } else { h.to_string() };
+            let bs: Vec<u8> = (0..h.len() / 2).map(|k| u8::from_str_radix(&h[2 * k..2 * k + 2], 16).unwrap()).collect();
+            quote::quote! { [#(#bs),*] }
+        }
+        other => quote::quote! { #other },
+    };
+    if n {
+        quote::quote! { ::soroban_sdk::BytesN::from_array(#env, &#arr) }.into()
+    } else {
+        quote::quote! { ::soroban_sdk::Bytes::from_slice(#env, &#arr) }.into()
+    }
+}
+#[proc_macro]
+pub fn bytesn(input: TokenStream) -> TokenStream {
+    bytes_lit(input, true)
+}
+#[proc_macro]
+pub fn bytes(input: TokenStream) -> TokenStream {
+    bytes_lit(input, false)
+}
